@@ -585,7 +585,7 @@ def c06_jobs():
         q2.append(dict(d, START0=65534, START1=65535))
         t2.append(dict(d, START0=0, START1=7))
         t2.append(dict(d, START0=65535, START1=65534))
-        t2.append(d)   # symbolic start counters (may exceed the budget: reported as inconclusive for that shape)
+        # (fully symbolic start counters in fault shapes exhaust memory for two of the shapes; C05 keeps them symbolic for the fault-free sequences)
     for d in t:
         t2.append(dict(d, START0=65534, START1=65535))
         t2.append(dict(d, START0=65533, START1=0))
